@@ -52,7 +52,7 @@ PROPS = {
     "PARSE": {"level": "other", "cone": [], "explanation": "internal: parser model vs parser.Parse"},
     "RENDER": {"level": "other", "cone": [], "explanation": "internal: evaluator model vs plush.Render on a fixed battery"},
     "C03": {
-        "level": "proof",
+        "level": "translation_validation",
         "cone": ["model/Bytes.v", "model/Lexer.v", "model/Ast.v", "model/Parser.v", "proofs/LexerProofs.v", "proofs/ParserProofs.v", "props/C03.v"],
         "trusted_base": COMMON_TB + [
             "model/Lexer.v and model/Parser.v are hand transcriptions of lexer/lexer.go and parser/parser.go (cursor conventions, error recording, String()-derived rewiring included); tied to the code by token-stream and program-dump correspondence",
@@ -62,7 +62,7 @@ PROPS = {
         "explanation": "totality theorems on the lexer/parser model + differential runs (token streams, parsed-program dumps, error lines) + recover/watchdog oracle on Parse",
     },
     "C04": {
-        "level": "proof",
+        "level": "translation_validation",
         "cone": ["model/Value.v", "model/Eval.v", "proofs/EvalProofs.v", "props/C04.v"],
         "trusted_base": COMMON_TB + [
             "model/Eval.v + model/Value.v transcribe compiler.go, helper_context.go, partial_helper.go and helpers/content; reflect is modelled by case analysis on the value universe (29 kinds of the shared family), not verified",
@@ -73,7 +73,7 @@ PROPS = {
         "explanation": "no-panic theorem on the evaluator model + exhaustive kind matrices run on the implementation under recover/watchdog and re-evaluated by the model",
     },
     "C05": {
-        "level": "proof",
+        "level": "translation_validation",
         "cone": ["model/Eval.v", "proofs/EvalProofs.v", "props/C05.v"],
         "trusted_base": COMMON_TB + [
             "model/Eval.v + model/Value.v transcribe compiler.go, helper_context.go, partial_helper.go and helpers/content (reflect modelled by case analysis on the shared value family); tied to the code by the render correspondence",
@@ -82,7 +82,7 @@ PROPS = {
         "explanation": "theorems about error propagation in the evaluator model + failing-helper placements run on the implementation (invoked-and-failed oracle) and re-evaluated by the model",
     },
     "C07": {
-        "level": "proof",
+        "level": "translation_validation",
         "cone": ["model/Value.v", "model/Eval.v", "proofs/EvalProofs.v", "props/C07.v"],
         "trusted_base": COMMON_TB + [
             "model/Eval.v + model/Value.v transcribe compiler.go, helper_context.go, partial_helper.go and helpers/content (reflect modelled by case analysis on the shared value family); tied to the code by the render correspondence",
@@ -91,7 +91,7 @@ PROPS = {
         "explanation": "truthiness classification and if-chain theorems on the model + exhaustive kind matrix / truth assignments on the implementation with counting conditions",
     },
     "C06": {
-        "level": "proof",
+        "level": "translation_validation",
         "cone": ["gen/Tables.v", "model/Parser.v", "model/Value.v", "model/Eval.v", "proofs/ParserProofs.v", "proofs/EvalProofs.v", "props/C06.v"],
         "trusted_base": COMMON_TB + [
             "model/Parser.v (Pratt loop over the precedence table regenerated from parser/precedences.go) and model/Value.v (typed operator functions) transcribe the code; floats are Coq primitive floats (IEEE binary64); regexp matching is an oracle (not modelled)",
@@ -100,64 +100,70 @@ PROPS = {
         "explanation": "precedence-table and operator theorems on the model + exhaustive depth-1 and random deeper trees judged against a Go reference evaluator in three parenthesisations",
     },
     "C08": {
-        "level": "proof",
+        "level": "translation_validation",
         "cone": ["model/Eval.v", "proofs/EvalProofs.v", "props/C08.v"],
         "trusted_base": COMMON_TB + ["model/Eval.v (eval_for, for_slice/for_items/for_iter, eval_stmts with the break/continue/return objects) transcribes evalForExpression and evalBlockStatement; map iteration order is the association-list order of the model and is compared only as a multiset"],
         "assumptions": [],
         "explanation": "loop theorems on the model + generated loop bodies judged against an element-by-element Go reference interpreter (loop unrolling) and re-evaluated by the model",
     },
     "C01": {
-        "level": "proof",
+        "level": "translation_validation",
         "cone": ["model/Text.v", "model/Value.v", "model/Eval.v", "proofs/TextProofs.v", "proofs/EvalProofs.v", "props/C01.v"],
         "trusted_base": COMMON_TB + ["the sink (write) and html_escape of model/Value.v and model/Text.v transcribe compiler.write and text/template.HTMLEscapeString; values with a String() method that are not strings (fmt.Stringer) are emitted unescaped by the sink and are treated as trusted (stated, not hidden)"],
         "assumptions": [],
         "explanation": "sink theorems (escaped exactly once / verbatim exactly once, for every value) on the model + payload plumbing routes on the implementation with a marker oracle, re-evaluated by the model",
     },
     "C02": {
-        "level": "proof",
+        "level": "translation_validation",
         "cone": ["model/Lexer.v", "model/Parser.v", "model/Eval.v", "proofs/LexerProofs.v", "props/C02.v"],
         "trusted_base": COMMON_TB + ["model/Lexer.v (readHTML, readString, readBString) transcribes lexer/lexer.go; NUL bytes end the scan as in the code and are outside the property (NUL-free)"],
         "assumptions": [],
         "explanation": "lexer theorems (text scanning vs the reference scanner, tag-free identity, string literals) + exhaustive short strings and random interleavings compared with the concatenation of texts and values",
     },
     "C09": {
-        "level": "proof", "cone": ["model/Ctx.v", "model/Eval.v", "proofs/CtxProofs.v", "proofs/EvalProofs.v", "props/C09.v"],
+        "level": "translation_validation", "cone": ["model/Ctx.v", "model/Eval.v", "proofs/CtxProofs.v", "proofs/EvalProofs.v", "props/C09.v"],
         "trusted_base": COMMON_TB + ["model/Eval.v + model/Ctx.v transcribe the evaluator's scope handling (c.ctx swapping with deferred restore, New(), the data copy in for / index-callee / chained calls, BlockWith, contentFor closures, partial) ; tied to the code by the render correspondence"], "assumptions": ["helpers in a body do not write to outer context handles they were given (true of all shipped helpers)"],
         "explanation": "frame theorems on the model (bindings of pre-existing contexts unchanged by Set on a fresh child, cur restored) + generated scope nestings judged against an environment-chain reference",
     },
     "C16": {
-        "level": "proof", "cone": ["model/Eval.v", "proofs/EvalProofs.v", "props/C16.v"],
+        "level": "translation_validation", "cone": ["model/Eval.v", "proofs/EvalProofs.v", "props/C16.v"],
         "trusted_base": COMMON_TB + ["model/Eval.v + model/Ctx.v transcribe the evaluator's scope handling (c.ctx swapping with deferred restore, New(), the data copy in for / index-callee / chained calls, BlockWith, contentFor closures, partial) ; tied to the code by the render correspondence"], "assumptions": ["return inside a for body ends the iteration, not the function (established by the existing tests); the property's quantifier has no loops in function bodies"],
         "explanation": "theorems about user_call on the model (arguments evaluated in the caller scope, fresh scope, unwrapped return value) + generated decision-chain functions judged against a Go reference",
     },
     "C13": {
-        "level": "proof", "cone": ["gen/Tables.v", "model/Eval.v", "proofs/TablesAgree.v", "props/C13.v"],
+        "level": "translation_validation", "cone": ["gen/Tables.v", "model/Eval.v", "proofs/TablesAgree.v", "props/C13.v"],
         "trusted_base": COMMON_TB + ["determinism of the model is by construction (it is a function); the sources of nondeterminism are tied to the code by the regenerated map_range_sites table (every range over a map / MapKeys in the evaluator) and by the snapshot harness (verif hook VerifProgram)", "Go map iteration order enters only through the listed sites; for-loops over Go maps are the licensed variation"],
         "assumptions": ["Go's type safety: no writes to the tree except through the assignments the translator can see (the one unsafe use in compiler.go is read-only)"],
         "explanation": "table theorems over the regenerated map-range sites + repeat / clone / cache histories with tree snapshots on the implementation, and the single model answer compared",
     },
     "C12": {
-        "level": "proof", "cone": ["model/Eval.v", "proofs/EvalProofs.v", "props/C12.v"],
+        "level": "translation_validation", "cone": ["model/Eval.v", "proofs/EvalProofs.v", "props/C12.v"],
         "trusted_base": COMMON_TB + ["bind_args / bind_fixed / bind_variadic / auto_arg of model/Eval.v transcribe the Go-function branch of evalCallExpression; reflect.AssignableTo is modelled by the assignable table over the shared type family", "silent zero-filling of up to two missing trailing parameters that are neither a map nor a helper context is modelled as the code does it and is part of the stated binding relation"],
         "assumptions": [],
         "explanation": "binding theorems on the model + exhaustive (signature x call shape) enumeration with recording helpers judged against a declarative binding written in Go",
     },
     "C17": {
-        "level": "proof", "cone": ["model/Eval.v", "proofs/EvalProofs.v", "props/C17.v"],
+        "level": "translation_validation", "cone": ["model/Eval.v", "proofs/EvalProofs.v", "props/C17.v"],
         "trusted_base": COMMON_TB + ["partial_call, block_with, block_in_child and the contentFor/contentOf cases of go_apply in model/Eval.v transcribe partial_helper.go, helper_context.go and helpers/content; text/template.JSEscapeString is re-implemented with unicode.IsPrint approximated (only U+2028/2029 non-printable): partial bodies are ASCII in the JS cases", "filepath.Ext re-implemented (ext_of)"],
         "assumptions": [],
         "explanation": "theorems relating block_with / partial_call to inline evaluation on the model + generated partial / layout / contentFor / block-helper uses compared with a second, inline run of the real engine",
     },
     "C15": {
-        "level": "proof", "cone": ["model/Lexer.v", "model/Parser.v", "model/Eval.v", "proofs/LexerProofs.v", "props/C15.v"],
+        "level": "translation_validation", "cone": ["model/Lexer.v", "model/Parser.v", "model/Eval.v", "proofs/LexerProofs.v", "props/C15.v"],
         "trusted_base": COMMON_TB + ["the line counter of model/Lexer.v (readChar and the stamping points), the parser's error lines and exec_prog's 'line N:' wrapping transcribe the code; error message text beyond the line prefix is not modelled (compared only between the shifted and unshifted runs of the real engine)"],
         "assumptions": ["'the line on which the tag containing the failing statement begins' is read as the line of the first token of the failing statement's tag"],
         "explanation": "lexer line-counting and shift theorems on the model + generated multi-line templates with one failing statement, with a placement oracle and a shift oracle",
     },
     "C11": {
-        "level": "proof", "cone": ["model/Ast.v", "model/Parser.v", "model/Eval.v", "proofs/EvalProofs.v", "props/C11.v"],
+        "level": "translation_validation", "cone": ["model/Ast.v", "model/Parser.v", "model/Eval.v", "proofs/EvalProofs.v", "props/C11.v"],
         "trusted_base": COMMON_TB + ["eval_chain, eval_index, index_callee (with callee_key: the substring search on printed paths) and the method lookup of eval_call in model/Eval.v, and assign_callee / split_callee in model/Parser.v, transcribe evalIdentifier, evalAccessIndex, evalIndexCallee, evalCallExpression and the parser's callee rewiring; reflect field/method lookup is modelled on the shared struct family"],
         "assumptions": [],
         "explanation": "theorems about the rebinding key on the model (with refuted witnesses for the known findings) + all short paths over a self-describing graph compared with Go navigation",
+    },
+    "C18": {
+        "level": "translation_validation", "cone": ["model/Lexer.v", "model/Parser.v", "proofs/LexerProofs.v", "props/C18.v"],
+        "trusted_base": COMMON_TB + ["skip_ws, the # comment scan and the statement loops of model/Lexer.v and model/Parser.v transcribe skipWhitespace, the comment case of nextInsideToken, parseProgram and parseBlockStatement"],
+        "assumptions": ["the two documented exceptions: '-' and '.' adjacent to a letter or digit belong to the identifier / number"],
+        "explanation": "lexer layout theorems on the model + generated token-level programs rendered in canonical and re-laid-out form (metamorphic oracle), both re-evaluated by the model",
     },
 }
